@@ -495,7 +495,7 @@ func c11CheckApprox(x1, x2 []float64) string {
 			z := d / sigma
 			want = 2 * math.Min(normCDF(z), 1-normCDF(z))
 		}
-		if math.Abs(r.P-want) > 1e-9 {
+		if !(math.Abs(r.P-want) <= 1e-9) {
 			return fmt.Sprintf("approx path n1=%d n2=%d alt=%v: p=%v, corrected normal approximation gives %v", len(x1), len(x2), alt, r.P, want)
 		}
 		if r.P < 0 || r.P > 1 {
@@ -515,7 +515,7 @@ func c11CheckSwitch(x1, x2 []float64) string {
 		return fmt.Sprintf("errors %v %v", err, err2)
 	}
 	n := len(x1)
-	if a.P < 0 || a.P > 1 || math.Abs(a.P-b.P) > 1e-9 {
+	if a.P < 0 || a.P > 1 || !(math.Abs(a.P-b.P) <= 1e-9) {
 		return fmt.Sprintf("n=%d: two-sided p=%v, swapped p=%v", n, a.P, b.P)
 	}
 	l, _ := MannWhitneyUTest(x1, x2, LocationLess)
@@ -528,7 +528,7 @@ func c11CheckSwitch(x1, x2 []float64) string {
 	if l.P+g.P < 1-1e-9 {
 		return fmt.Sprintf("n=%d: P(U<=u)+P(U>=u) = %v < 1", n, l.P+g.P)
 	}
-	if math.Abs(math.Min(1, 2*math.Min(l.P, g.P))-a.P) > 1e-9 {
+	if !(math.Abs(math.Min(1, 2*math.Min(l.P, g.P))-a.P) <= 1e-9) {
 		return fmt.Sprintf("n=%d: two-sided %v is not 2·min(%v,%v)", n, a.P, l.P, g.P)
 	}
 	return ""
